@@ -379,12 +379,24 @@ class Check:
         cmd.append("./" + os.path.relpath(os.path.join(REPO, pkg), moddir))
         cmd = netns_wrap(cmd)
         rc, o, wall = sh(cmd, cwd=moddir, env=e, timeout=timeout)
+        m = re.search(r"^FAIL\t\S+\t([0-9.]+)s", o, re.M)
+        if rc != 0 and m and float(m.group(1)) < 5 and "[build failed]" not in o and "[setup failed]" not in o \
+                and "DATA RACE" not in o:
+            # a harness that dies within seconds died while setting its laboratory up (a port taken
+            # between two binds, ...): one more attempt; a verdict only ever comes from recorded events
+            self.notes.append("harness %s -run %s failed after %ss and was started again: %s" % (
+                pkg, run, m.group(1), o[-300:].replace("\n", " | ")))
+            if os.path.exists(out):
+                os.remove(out)
+            rc, o, wall = sh(cmd, cwd=moddir, env=e, timeout=timeout)
         if rc != 0:
             if "[build failed]" in o or "[setup failed]" in o:
                 raise Undecided("harness build failed for %s:\n%s" % (pkg, o[-5000:]))
             i = o.find("WARNING: DATA RACE")
             race = ("\n--- first data race ---\n" + o[i:i + 5000]) if i >= 0 else ""
-            raise Undecided("harness %s -run %s failed (rc %d):\n%s%s" % (pkg, run, rc, o[-3000:], race))
+            e = Undecided("harness %s -run %s failed (rc %d):\n%s%s" % (pkg, run, rc, o[-3000:], race))
+            e.output, e.partial = o, out   # the complete output and the events recorded before the end
+            raise e
         if not os.path.exists(out):
             raise Undecided("harness %s -run %s wrote no output (test not matched?)\n%s" % (pkg, run, o[-2000:]))
         return out, o
